@@ -50,6 +50,7 @@ def subspaces(tier):
         out += C.structure_subspaces(D.shapes(2, 2), 2, True, only_flexible=True, mode="pairs")
         out += C.structure_subspaces(D.shapes(2, 3), 2, False, mode="reset")
         out += C.structure_subspaces(D.shapes(3, 3) + [(2, 2)], 2, False, mode="observed")
+        out += C.wide_subspaces(mode="observed", pairs=((1, 8), (4, 5))) + C.tall_subspaces(mode="observed")
         for f in ("dominated", "non_idle", "non_immediate_machines", "non_immediate_ops"):
             out += C.structure_subspaces(D.shapes(3, 3), 2, False, canonical=True, mode="pairs", filter=f)
     else:
@@ -58,6 +59,7 @@ def subspaces(tier):
             out += C.structure_subspaces(D.shapes(2, 2), 2, True, only_flexible=True, mode="pairs", filter=f)
         out += C.structure_subspaces(D.shapes(3, 4), 2, False, mode="reset")
         out += C.structure_subspaces(D.shapes(3, 4), 2, False, mode="observed")
+        out += C.wide_subspaces(mode="observed") + C.tall_subspaces(mode="observed")
         out += C.structure_subspaces(D.shapes(3, 3), 2, False, mode="observed", filter="default_pair")
         out += C.structure_subspaces(D.shapes(3, 4), 2, False, mode="pairs")
         out += C.structure_subspaces(D.shapes(3, 3), 2, True, only_flexible=True, mode="pairs")
